@@ -99,14 +99,37 @@ class Var(object):
         return '<%s:%r>' % (self.cp, self.cc)
 
 
+def narrow_map():
+    """per-path map  id(code-point term) -> class established by decisions taken on this path (written by symre.test)"""
+    from .core import Ctx
+    c = Ctx.current
+    if c is None:
+        return None
+    m = c.__dict__.get('cc_narrow')
+    if m is None:
+        m = c.__dict__['cc_narrow'] = {}
+    return m
+
+
+def eff_class(cell):
+    """class of a symbolic cell as narrowed by the decisions taken on this path"""
+    m = narrow_map()
+    if m:
+        n = m.get(cell.cp.get_id())
+        if n is not None:
+            return cell.cc.inter(n)
+    return cell.cc
+
+
 def cell_is(cell, ch):
     """SBool/bool: the cell equals character ch"""
     if isinstance(cell, str):
         return cell == ch
     o = ord(ch)
-    if not cell.cc.has(o):
+    cc = eff_class(cell)
+    if not cc.has(o):
         return False
-    if cell.cc.size() == 1:
+    if cc.size() == 1:
         return True
     return mkbool(cell.cp == o)
 
@@ -115,9 +138,10 @@ def cell_in(cell, cc):
     """bool/SBool: the cell's character lies in class cc"""
     if isinstance(cell, str):
         return cc.has(ord(cell))
-    if cell.cc.subset(cc):
+    eff = eff_class(cell)
+    if eff.subset(cc):
         return True
-    if cell.cc.inter(cc).empty():
+    if eff.inter(cc).empty():
         return False
     return mkbool(cc.z3in(cell.cp))
 
@@ -393,6 +417,10 @@ class SStr(Sym):
                 if len(u) != 1:
                     raise OutOfSubset('upper() changing length')
                 return u
+            if eff_class(c) is not c.cc:
+                c = Var(c.cp, eff_class(c))
+                if c.cc.size() == 1:
+                    return up(chr(c.cc.only()))
             if c.cc.inter(LOWER).empty():
                 if not c.cc.subset(_CASELESS_OR_UPPER()):
                     raise OutOfSubset('upper() of a character class with non-ASCII letters %r' % c.cc)
@@ -412,6 +440,10 @@ class SStr(Sym):
                 if len(u) != 1:
                     raise OutOfSubset('lower() changing length')
                 return u
+            if eff_class(c) is not c.cc:
+                c = Var(c.cp, eff_class(c))
+                if c.cc.size() == 1:
+                    return lo(chr(c.cc.only()))
             if c.cc.inter(UPPER).empty():
                 if not c.cc.subset(_CASELESS_OR_LOWER()):
                     raise OutOfSubset('lower() of a character class with non-ASCII letters %r' % c.cc)
@@ -649,6 +681,8 @@ def _scan(pred, key):
             elif not ok and start is not None:
                 out.append((start, c - 1))
                 start = None
+        if start is not None:
+            out.append((start, 0x2FFFF))
         _cache[key] = CC(out)
     return _cache[key]
 
